@@ -13,6 +13,7 @@ history `h` of `seek`/`read`/`get_position` calls with arbitrary arguments, succ
 import Sqfs.Proofs.MetaReader
 import Sqfs.Proofs.DataReaderCache
 import Sqfs.Proofs.C10Prog
+import Sqfs.Proofs.C10Data
 namespace Sqfs.C10
 open Sqfs.MetaReader Sqfs.Consts Sqfs.C10P
 
@@ -201,6 +202,40 @@ theorem stream_fail_stops (f : File) (unc : Codec) (d d' : DataReader.DR) (s : D
       | ok mem s' => cases h
       | fail e' => exact key _
       | early e' => exact key _
+
+/-! #### the alternative APIs for reading file data agree on every file the library itself wrote
+
+`DataReader.Written f unc bs tbl ino datas tail` (`Sqfs/Spec/DataReaderCache.lean`) describes an inode and its data
+as the block processor and the fragment table writer leave them: full blocks (sparse, raw, or compressed and then
+smaller than unpacked), at most one short last block or else a tail in the fragment block the inode names.  The
+statements are about the cacheless references; by `data_api_eq_cacheless` the cached reader computes those after
+any history. -/
+
+/-- positional read of the whole file = `get_block` for every index followed by `get_fragment`: both succeed
+and deliver the same bytes -/
+theorem read_eq_blocks_plus_fragment (f : File) (unc : Codec) (bs : Nat) (tbl : List (Nat × Nat)) (ino : DataReader.Inode)
+    (datas : List Bytes) (tail : Bytes) (h : DataReader.Written f unc bs tbl ino datas tail) :
+    (DataReader.readSpec f unc bs tbl ino 0 ino.fileSize).1 = 0 ∧
+    DataReader.viaBlocks f unc bs tbl ino = .ok (DataReader.readSpec f unc bs tbl ino 0 ino.fileSize).2 := by
+  rw [DataReader.readSpec_written h, DataReader.viaBlocks_written h]
+  exact ⟨rfl, rfl⟩
+
+/-- the stream (`get_buffered_data`/`advance_buffer` until the end) delivers what the positional read delivers -/
+theorem stream_eq_read (f : File) (unc : Codec) (bs : Nat) (tbl : List (Nat × Nat)) (ino : DataReader.Inode)
+    (datas : List Bytes) (tail : Bytes) (h : DataReader.Written f unc bs tbl ino datas tail) :
+    DataReader.viaStream f unc bs tbl ino = .ok (DataReader.readSpec f unc bs tbl ino 0 ino.fileSize).2 := by
+  rw [DataReader.readSpec_written h]
+  have := DataReader.streamAllGo_written h.bsPos tbl ino.fragIdx ino.fragOff tail h.tailShort h.frag
+    ino.blocks ino.blocksStart ino.fileSize datas (DataReader.streamOpen bs ino) [] (ino.blocks.length + 2)
+    h.blocks rfl rfl rfl rfl rfl rfl h.tailLen (Nat.le_refl _)
+  unfold DataReader.viaStream
+  rw [this]
+  simp
+
+/-- and all three are the file: the blocks' bytes followed by the tail -/
+theorem written_file_content (f : File) (unc : Codec) (bs : Nat) (tbl : List (Nat × Nat)) (ino : DataReader.Inode)
+    (datas : List Bytes) (tail : Bytes) (h : DataReader.Written f unc bs tbl ino datas tail) :
+    DataReader.readSpec f unc bs tbl ino 0 ino.fileSize = (0, datas.flatten ++ tail) := DataReader.readSpec_written h
 
 /-! ### Part 3: the decoders on top of the metadata reader
 
@@ -416,6 +451,36 @@ example : (match (exec true exKv toyUnc (exXr.readPairsP 1 []) (exec true exKv t
     | .ok l => decide (l = [("user.j".toUTF8.toList, [0x77])]) | .error _ => false) = true := by decide +kernel
 
 example : (0x100 : Nat) / xattrFlagOol % 2 = 1 := by decide
+
+/-- a written file of 19 bytes with block size 8: a raw block at 0, a compressed block at 8 (`03 08 00 55`: eight
+times `55`), and a 3-byte tail at offset 1 of the raw 5-byte fragment block at 12 -/
+private def exData : File :=
+  { size := 17, byte := fun i => ([1, 2, 3, 4, 5, 6, 7, 8, 3, 8, 0, 0x55, 0xa0, 0xa1, 0xa2, 0xa3, 0xa4] : List UInt8).getD i 0,
+    bad := fun _ => false }
+private def exIno : DataReader.Inode := { fileSize := 19, blocksStart := 0, fragIdx := 0, fragOff := 1, blocks := [16777224, 4] }
+private def exTbl : List (Nat × Nat) := [(12, 16777221)]
+
+/-- `Written` is satisfiable (so `read_eq_blocks_plus_fragment` and `stream_eq_read` are not vacuous) -/
+example : DataReader.Written exData toyUnc 8 exTbl exIno [[1, 2, 3, 4, 5, 6, 7, 8], List.replicate 8 0x55] [0xa1, 0xa2, 0xa3] where
+  bsPos := by decide
+  bsU32 := by decide
+  small := by decide
+  blocks := by
+    refine ⟨_, _, rfl, by decide, Or.inr ⟨by decide, by decide, [1, 2, 3, 4, 5, 6, 7, 8], by decide +kernel, Or.inr ⟨by decide, by decide, rfl⟩⟩, ?_⟩
+    refine ⟨_, _, rfl, by decide, Or.inr ⟨by decide, by decide, [3, 8, 0, 0x55], by decide +kernel, Or.inl ⟨by decide, by decide, by decide, ?_⟩⟩, rfl⟩
+    intro room hr
+    have h8 : (8 : Nat) ≤ room := hr
+    simp [toyUnc, h8]
+  covered := by decide
+  tailLen := by decide
+  tailShort := by decide
+  frag := fun _ => ⟨(12, 16777221), ([0xa0, 0xa1, 0xa2, 0xa3, 0xa4, 0, 0, 0], 5), by decide, by decide +kernel, by decide, by decide, by decide⟩
+
+/-- and the three APIs do deliver the 19 bytes -/
+example : DataReader.viaStream exData toyUnc 8 exTbl exIno = .ok [1, 2, 3, 4, 5, 6, 7, 8, 0x55, 0x55, 0x55, 0x55, 0x55, 0x55, 0x55, 0x55, 0xa1, 0xa2, 0xa3] ∧
+    DataReader.viaBlocks exData toyUnc 8 exTbl exIno = DataReader.viaStream exData toyUnc 8 exTbl exIno ∧
+    DataReader.readSpec exData toyUnc 8 exTbl exIno 0 19 = (0, [1, 2, 3, 4, 5, 6, 7, 8, 0x55, 0x55, 0x55, 0x55, 0x55, 0x55, 0x55, 0x55, 0xa1, 0xa2, 0xa3]) := by
+  decide +kernel
 
 /-- `ConsIno` for the code before 36fa767 is satisfiable by a non-trivial inode (one raw 8-byte block at location 0) -/
 example : DataReader.ConsIno false (fun _ => 16777224)
